@@ -14,7 +14,8 @@
 
    Representation hypotheses ([represents]): same tree; w_cwd = rendered c_cwd; the oracle of the
    world is pkg_of on segments; the input directory is spelled Clean (render_pspec of c_input —
-   `protos`, `../protos`, `.`, `/abs/protos`, the $PWD default) and holds no '='; each -include
+   `protos`, `../protos`, `.`, `/abs/protos`, the $PWD default; '=' allowed since fix
+   C20-input-dir-equals); each -include
    entry `dir[=prefix]` has  filepath.Abs dir = rendered to_abs of the structured include
    (any spelling of dir: that equation is all that is used); names in the tree hold no '/' and
    are proper names.  Unclean spellings of the input directory are covered by evaluation only
@@ -355,27 +356,25 @@ Section RefineRun.
     destruct (c_vt cfg), (c_grpc cfg); reflexivity.
   Qed.
 
-  Lemma node_lines_scan : forall n, existsb (str_contains go_package_marker) (node_lines n) = has_go_package n.
-  Proof. intros [s c r|s ch]; reflexivity. Qed.
-
   Lemma s_has_gp_sim : forall q, okp q ->
     s_has_go_package W (render_abs q)
     = match lookup (c_root cfg) q with
-      | Some n => (has_go_package n, ENil)
+      | Some (File _ c _) => (scan_go_package c, ENil)
+      | Some (Dir _ _) => (false, EFail)      (* opens, reading fails *)
       | None => (false, EFail)
       end.
   Proof.
     intros q Hq. unfold s_has_go_package, fs_open.
     rewrite (fs_resolve_abs W cfg Hroot q Hq).
-    destruct (lookup (c_root cfg) q) as [n|]; cbn [err_is_nil]; [|reflexivity].
-    rewrite node_lines_scan. reflexivity.
+    destruct (lookup (c_root cfg) q) as [[s c r|s ch]|]; reflexivity.
   Qed.
 
   Lemma exists_last' : forall (r : path), r <> [] -> exists r' n, r = r' ++ [n].
   Proof. intros r H. destruct (exists_last H) as (r' & n & E). eauto. Qed.
 
   Definition below_path (a : path) (p : pspec) : Prop :=
-    exists r, p = PAbs (a ++ r) /\ r <> [] /\ Forall okn r.
+    exists r, p = PAbs (a ++ r) /\ r <> [] /\ Forall okn r
+              /\ (forall n, lookup (c_root cfg) (a ++ r) = Some n -> is_dir n = false).
 
   (* generate.go:68-110, the loop over the protos found below include path a *)
   Lemma s_collect_files_sim : forall a pre has ps, okp a -> a <> [] \/ True ->
@@ -383,14 +382,15 @@ Section RefineRun.
     s_collect (s_file_args W g (render_abs a) pre has) (map render_pspec ps)
     = render_result (include_files pkg_of cfg a (if has then Some pre else None) ps).
   Proof.
-    intros a pre has ps Ha _ Hps. induction Hps as [|p ps (r & -> & Hne & Hr) Hps IH].
+    intros a pre has ps Ha _ Hps. induction Hps as [|p ps (r & -> & Hne & Hr & Hfile) Hps IH].
     - reflexivity.
     - cbn [map s_collect include_files render_pspec].
       assert (Hq : okp (a ++ r)) by (apply okp_app; assumption).
       unfold s_file_args at 1. rewrite (s_has_gp_sim _ Hq).
       unfold file_has_go_package. cbn [to_abs]. rewrite (norm_ok_id (a ++ r)) by apply Hq.
-      destruct (lookup (c_root cfg) (a ++ r)) as [n|]; cbn [err_is_nil negb]; [|reflexivity].
-      destruct (has_go_package n).
+      destruct (lookup (c_root cfg) (a ++ r)) as [[s0 c0 r0|s0 ch0]|]; cbn [err_is_nil negb];
+        [|specialize (Hfile _ eq_refl); discriminate|reflexivity].
+      cbn [has_go_package]. destruct (scan_go_package c0).
       + rewrite IH. destruct (include_files pkg_of cfg a _ ps); reflexivity.
       + unfold fp_rel_e. rewrite fp_rel_below by apply Hq. cbn [err_is_nil negb].
         rewrite rel_app.
@@ -417,21 +417,19 @@ Section RefineRun.
           cbn [render_result]. rewrite map_app. reflexivity.
   Qed.
 
-  (* how an entry string of the command line denotes an include of the structured model *)
-  Definition entry_rep (e : string) (inc : pspec * option string) : Prop :=
-    exists d pre has,
-      str_cut e = (d, pre, has)
-      /\ snd inc = (if has then Some pre else None)
-      /\ String.eqb d "" = false
-      /\ fp_abs (w_cwd W) d = render_abs (to_abs (c_cwd cfg) (fst inc))
-      /\ Forall seg_ok (to_abs (c_cwd cfg) (fst inc)).
+  (* how a directory spelling of the command line denotes a directory of the structured model *)
+  Definition dir_rep (d : string) (p : pspec) : Prop :=
+    String.eqb d "" = false
+    /\ fp_abs (w_cwd W) d = render_abs (to_abs (c_cwd cfg) p)
+    /\ Forall seg_ok (to_abs (c_cwd cfg) p).
 
-  (* generate.go:57-111, one iteration of the loop over includePaths *)
-  Lemma s_include_args_sim : forall e inc, In inc (include_paths cfg) -> entry_rep e inc ->
-    s_include_args W g e = render_result (include_args pkg_of cfg inc).
+  (* generate.go, one iteration of the loop over includePaths *)
+  Lemma s_include_core_sim : forall d pre (has : bool) inc, In inc (include_paths cfg) ->
+    dir_rep d (fst inc) -> snd inc = (if has then Some pre else None) ->
+    s_include_core W g d pre has = render_result (include_args pkg_of cfg inc).
   Proof.
-    intros e inc Hin (d & pre & has & Hcut & Hpre & Hd & Habs & Hseg).
-    unfold s_include_args, include_args. rewrite Hcut, Habs.
+    intros d pre has inc Hin (Hd & Habs & Hseg) Hpre.
+    unfold s_include_core, include_args. rewrite Habs.
     set (a := to_abs (c_cwd cfg) (fst inc)) in *.
     assert (Ha : okp a) by (split; [exact Hseg|apply to_abs_names]).
     destruct (Hdirs inc Hin) as (s & ch & Hl). fold a in Hl.
@@ -444,9 +442,28 @@ Section RefineRun.
     rewrite (s_collect_files_sim a pre has _ Ha (or_intror I)).
     - destruct (include_files pkg_of cfg a _ _); reflexivity.
     - apply Forall_forall. intros p Hp. apply in_map_iff in Hp. destruct Hp as ([r x] & <- & Hrx).
-      apply filter_In in Hrx. destruct Hrx as [Hrx _]. exists r. cbn [fst]. split; [reflexivity|]. split.
+      apply filter_In in Hrx. destruct Hrx as [Hrx Hpf]. exists r. cbn [fst snd] in *.
+      split; [reflexivity|]. split; [|split].
       + eapply below_nonempty; eauto.
       + eapply below_all_names; [|exact Hrx]. eapply all_names_lookup; eauto.
+      + intros n Hn. assert (Hwfn : wf_node (Dir s ch)) by (eapply wf_lookup; eauto).
+        apply (below_lookup _ Hwfn) in Hrx. destruct Hrx as [_ Hlx].
+        rewrite (lookup_app a (c_root cfg) r), Hl in Hn. rewrite Hlx in Hn. inversion Hn; subst.
+        destruct n; [reflexivity|discriminate].
+  Qed.
+
+  (* an -include entry `dir[=prefix]` *)
+  Definition entry_rep (e : string) (inc : pspec * option string) : Prop :=
+    exists d pre has,
+      str_cut e = (d, pre, has)
+      /\ snd inc = (if has then Some pre else None)
+      /\ dir_rep d (fst inc).
+
+  Lemma s_include_args_sim : forall e inc, In inc (include_paths cfg) -> entry_rep e inc ->
+    s_include_args W g e = render_result (include_args pkg_of cfg inc).
+  Proof.
+    intros e inc Hin (d & pre & has & Hcut & Hpre & Hd).
+    unfold s_include_args. rewrite Hcut. apply s_include_core_sim; assumption.
   Qed.
 
   Lemma s_collect_includes_sim : forall es incs,
@@ -461,7 +478,9 @@ Section RefineRun.
     rewrite map_app. reflexivity.
   Qed.
 
-  Hypothesis Hentries : Forall2 entry_rep (g_InputDir g :: g_Include g) (include_paths cfg).
+  (* the input directory is taken as typed (no cut); the -include entries are cut at '=' *)
+  Hypothesis Hinput : dir_rep (g_InputDir g) (c_input cfg).
+  Hypothesis Hentries : Forall2 entry_rep (g_Include g) (c_includes cfg).
   Hypothesis Hres_in : fs_resolve W (g_InputDir g) = lookup (c_root cfg) (input_abs cfg).
 
   (* Generate.Run up to exec.Command: the argument vector is the rendering of the structured
@@ -472,8 +491,13 @@ Section RefineRun.
     pose proof (s_find_protos_sim W g cfg Hnames Hinp Hcin (c_input cfg) (c_recurse cfg) Hcin) as Hf.
     rewrite <- Hinp in Hf. rewrite Hf by exact Hres_in. clear Hf.
     destruct (find_protos cfg (c_input cfg) (c_recurse cfg)) as [paths|]; cbn [err_is_nil negb]; [|reflexivity].
-    rewrite (s_collect_includes_sim _ _ (fun i H => H) Hentries).
-    destruct (includes_args pkg_of cfg (include_paths cfg)) as [incs|]; [|reflexivity].
+    unfold include_paths. cbn [includes_args].
+    rewrite (s_include_core_sim (g_InputDir g) "" false (c_input cfg, None))
+      by (try (left; reflexivity); try exact Hinput; reflexivity).
+    destruct (include_args pkg_of cfg (c_input cfg, None)) as [first|]; [|reflexivity].
+    cbn [render_result].
+    rewrite (s_collect_includes_sim _ _ (fun i H => or_intror H) Hentries).
+    destruct (includes_args pkg_of cfg (c_includes cfg)) as [incs|]; [|reflexivity].
     cbn [render_result]. rewrite s_plugin_flags_sim, !map_app, map_map. reflexivity.
   Qed.
 
@@ -498,9 +522,10 @@ Record represents (pkg_of : path -> result string) (W : world) (g : Generate) (c
   rep_vt : g_VTProto g = c_vt cfg;
   rep_grpc : g_GRPC g = c_grpc cfg;
   rep_rec : g_Recurse g = c_recurse cfg;
-  (* input directory and -include entries: no '=' in the input spelling (str_cut finds none),
-     dir=prefix cut as typed, filepath.Abs of the directory part = the structured include *)
-  rep_entries : Forall2 (entry_rep W cfg) (g_InputDir g :: g_Include g) (include_paths cfg);
+  (* the input directory as typed ('=' allowed), the -include entries cut into dir[=prefix]:
+     filepath.Abs of the directory = the structured directory *)
+  rep_input_dir : dir_rep W cfg (g_InputDir g) (c_input cfg);
+  rep_entries : Forall2 (entry_rep W cfg) (g_Include g) (c_includes cfg);
   rep_input_resolves : fs_resolve W (g_InputDir g) = lookup (c_root cfg) (input_abs cfg)
 }.
 
